@@ -264,6 +264,7 @@ pub struct FrontendCtx<'a, R: FileManager> {
     pub type_application_stack: Vec<(String, Runtype)>,
     jsdoc_cache_by_file: BTreeMap<BffFileName, JsdocFileCache>,
     module_items_being_located: Vec<ModuleItemAddress>,
+    files_being_extracted_as_value: Vec<BffFileName>,
 }
 
 #[derive(Debug)]
@@ -1114,6 +1115,7 @@ impl<'a, R: FileManager> FrontendCtx<'a, R> {
             recursive_generic_uuids: BTreeSet::new(),
             jsdoc_cache_by_file: BTreeMap::new(),
             module_items_being_located: vec![],
+            files_being_extracted_as_value: vec![],
         }
     }
 
@@ -2514,6 +2516,30 @@ impl<'a, R: FileManager> FrontendCtx<'a, R> {
     }
 
     fn extract_whole_file_as_value(
+        &mut self,
+        bff_file_name: &BffFileName,
+        anchor: &Anchor,
+    ) -> Res<Runtype> {
+        // `import * as N from "./a"` where a.ts re-exports (a namespace of) the importing file
+        // again: the value of such a namespace contains itself.
+        if self.files_being_extracted_as_value.contains(bff_file_name) {
+            return self.error(
+                anchor,
+                DiagnosticInfoMessage::CannotNotResolveValue(ModuleItemAddress {
+                    file: bff_file_name.clone(),
+                    name: "*".to_string(),
+                    visibility: Visibility::Export,
+                }),
+            );
+        }
+        self.files_being_extracted_as_value
+            .push(bff_file_name.clone());
+        let res = self.extract_whole_file_as_value_inner(bff_file_name, anchor);
+        self.files_being_extracted_as_value.pop();
+        res
+    }
+
+    fn extract_whole_file_as_value_inner(
         &mut self,
         bff_file_name: &BffFileName,
         anchor: &Anchor,
